@@ -402,7 +402,8 @@ func c20Trans(env *c20Env) []c20TransRow {
 		"include-operation-ids": {[]interface{}{"a", "b"}, "a,b", `["a","b"]`},
 		"exclude-operation-ids": {[]interface{}{"a", "b"}, "a,b", `["a","b"]`},
 		"exclude-schemas":       {[]interface{}{"a", "b"}, "a,b", `["a","b"]`},
-		"templates":             {"tpl", "tpl", `{"client.tmpl":"// x"}`},
+		// the directory may be spelled in any way that names it
+		"templates": {"./tpl", "tpl/", `{"client.tmpl":"// x"}`},
 		// the second key holds a colon and a comma: on the command line it is quoted
 		"import-mapping": {map[string]interface{}{"a.yaml": "example.com/a", "https://x.org/specs:v1,b.yaml": "example.com/b"},
 			`a.yaml:example.com/a,"https://x.org/specs:v1,b.yaml":example.com/b`, `{"a.yaml":"example.com/a","https://x.org/specs:v1,b.yaml":"example.com/b"}`},
@@ -1076,7 +1077,10 @@ func c20Express(r *Rng, mode string, c c20Choice, flags []string) (map[string]st
 			put("response-type-suffix", c.Suffix, c.Suffix)
 		}
 		if tplDir != "" {
-			put("templates", tplDir, tplDir)
+			// the directory under one of its spellings, in turn
+			sp := []string{tplDir, "./" + tplDir, tplDir + "/", "./" + tplDir + "/"}[c20TplSpelling%4]
+			c20TplSpelling++
+			put("templates", sp, sp)
 		}
 		if c.ImportMapping != nil {
 			im := map[string]interface{}{}
@@ -1421,6 +1425,8 @@ func firstLine(s string) string {
 	}
 	return s
 }
+
+var c20TplSpelling int
 
 func init() {
 	register("c20", runC20)
